@@ -199,6 +199,8 @@ func (p *clientStreamProcessorFMP4) processSegment(ctx context.Context, seg *seg
 				ntp:       ntp,
 			}
 
+			verifYield("client.processor.beforePush")
+
 			// keep collecting completions while pushing, otherwise a segment with
 			// many fragments fills chPartTrackProcessed and blocks both sides.
 			for pushed := false; !pushed; {
